@@ -252,6 +252,12 @@ def observe(files, main="m.emb"):
     o["pre"] = pre
     desc, L, refs_raw, frefs_raw = extract(pre)
     o["desc"], o["L"] = desc, L
+    # hypothesis `Ctx.WellFormed` of the Lean theorems (C12_visible_nodup): the anonymous imports
+    # of the module a reference stands in are distinct files other than the module itself
+    o["ctx_total"] = len(desc["refs"]) + len(desc["frefs"])
+    o["ctx_not_wellformed"] = sum(
+        1 for r in desc["refs"] + desc["frefs"]
+        if r["ctx"]["module"] in r["ctx"]["anon"] or len(set(r["ctx"]["anon"])) != len(r["ctx"]["anon"]))
     o["plain_mask"] = [not r.has_field("canonical_name") for (r, _m, _t, _a) in refs_raw]
     # the resolver's own error list, before glue.process_ir splits off the groups with a
     # synthetic location
@@ -1655,6 +1661,13 @@ FINDING_INPUTS = {
 
 
 # ===================================================================== run
+def count_ctx(chk, o):
+    if "ctx_total" in o:
+        chk.extra["reference_contexts"] = chk.extra.get("reference_contexts", 0) + o["ctx_total"]
+        chk.extra["reference_contexts_not_wellformed"] = \
+            chk.extra.get("reference_contexts_not_wellformed", 0) + o["ctx_not_wellformed"]
+
+
 def model_line(o):
     return "RESOLVE " + json.dumps(o["desc"], separators=(",", ":"))
 
@@ -1674,6 +1687,7 @@ def evaluate(chk, cases, model_ok, label):
         nviol = len(chk.violations) + len(chk.known_printed)
         o = observe(c["files"])
         chk.count()
+        count_ctx(chk, o)
         obs.append(o)
         # canonical names / find_object directly on the real IR
         ir = o.get("s2_ir") or o.get("s1_ir")
@@ -1786,6 +1800,7 @@ def observe_testdata(chk, model_ok):
     for c in cases:
         o = observe(files, c["main"])
         chk.count()
+        count_ctx(chk, o)
         ir = o.get("s2_ir") or o.get("s1_ir")
         if ir is not None:
             problems, n = check_canonical(ir)
